@@ -583,6 +583,39 @@ func ruleR4(r *Run) {
 			return true
 		})
 		if len(downstream) == 0 {
+			// the guarded call may have been split off into a helper of the same package
+			// (Process -> invoke): analyse the helper that contains it instead
+			var helper *ast.FuncDecl
+			ast.Inspect(fd.Body, func(n ast.Node) bool {
+				call, ok := n.(*ast.CallExpr)
+				if !ok || helper != nil {
+					return true
+				}
+				if d, cpkg := p.calleeDecl(info, call); d != nil && cpkg == pkg {
+					ast.Inspect(d.Body, func(m ast.Node) bool {
+						if c2, ok := m.(*ast.CallExpr); ok {
+							if h := x.hazardCall(info, c2); strings.HasPrefix(h, "request-path callback") || strings.HasPrefix(h, "callback") {
+								helper = d
+							}
+						}
+						return true
+					})
+				}
+				return true
+			})
+			if helper != nil {
+				fd = helper
+				ast.Inspect(fd.Body, func(n ast.Node) bool {
+					if call, ok := n.(*ast.CallExpr); ok {
+						if h := x.hazardCall(info, call); strings.HasPrefix(h, "request-path callback") || strings.HasPrefix(h, "callback") {
+							downstream = append(downstream, call)
+						}
+					}
+					return true
+				})
+			}
+		}
+		if len(downstream) == 0 {
 			r.Undec(key, fd.Pos(), "no downstream handler call found")
 			continue
 		}
